@@ -62,6 +62,10 @@ func traverse(context Context, matchingNode *CandidateNode, operation *Operation
 
 	case AliasNode:
 		log.Debug("its an alias!")
+		if matchingNode.Alias == nil {
+			// an alias made by an expression (alias = "x"): it has no resolved target to look into
+			return list.New(), nil
+		}
 		matchingNode = matchingNode.Alias
 		return traverse(context, matchingNode, operation)
 	default:
@@ -138,6 +142,10 @@ func traverseArrayIndices(context Context, matchingNode *CandidateNode, indicesT
 	}
 
 	if matchingNode.Kind == AliasNode {
+		if matchingNode.Alias == nil {
+			// an alias made by an expression (alias = "x"): it has no resolved target to look into
+			return list.New(), nil
+		}
 		matchingNode = matchingNode.Alias
 		return traverseArrayIndices(context, matchingNode, indicesToTraverse, prefs)
 	} else if matchingNode.Kind == SequenceNode {
@@ -317,6 +325,10 @@ func doTraverseMap(newMatches *orderedmap.OrderedMap, node *CandidateNode, wante
 func traverseMergeAnchor(newMatches *orderedmap.OrderedMap, value *CandidateNode, wantedKey string, prefs traversePreferences, splat bool) error {
 	switch value.Kind {
 	case AliasNode:
+		if value.Alias == nil {
+			// an alias made by an expression (alias = "x"): it has no resolved target to merge
+			return nil
+		}
 		if value.Alias.Kind != MappingNode {
 			return fmt.Errorf("can only use merge anchors with maps (!!map), but got %v", value.Alias.Tag)
 		}
